@@ -72,6 +72,7 @@ where
 
     type_resolution_depth: Cell<u16>,
     type_resolution_overflowed: Cell<bool>,
+    type_resolution_steps: Cell<u32>,
 }
 
 impl<C> VueJsxTransformVisitor<C>
@@ -102,6 +103,7 @@ where
 
             type_resolution_depth: Cell::new(0),
             type_resolution_overflowed: Cell::new(false),
+            type_resolution_steps: Cell::new(0),
         }
     }
 
